@@ -76,15 +76,22 @@ def classify(ans):
     return 'internal:' + str(ans.get('type', ans.get('status')))
 
 
+PRECEDING = ['', ':- zz1, zz2.\n', 'not zz1 :- zz2.\n', 'zz1 :- zz2.\n', 'zz1 ; zz2 :- zz3.\n', "zz1' :- zz2.\n", ":- zz1, zz2'.\n"]
+
+
 def table(ctx):
+    """every position x form x part, alone and preceded by statements of other kinds (flags must not leak between statements)"""
     rows = []
     parts = PARTS if not ctx.quick else ['always', 'final']
     for part in parts:
         for pname, tmpl, shape, place in POSITIONS:
             for form in FORMS:
-                text = '#program %s.\n%s\n' % (part, tmpl.format(X=form[0]))
-                line = 'ctx %s %s %d %d %d %d' % (' '.join(str(b) for b in shape), place, form[1], form[2], form[3], form[4])
-                rows.append({'part': part, 'position': pname, 'form': form[0], 'text': text, 'line': line, 'f': form})
+                for pi, pre in enumerate(PRECEDING if part == 'always' else PRECEDING[:1]):
+                    if pi > 0 and ctx.quick and form[0] not in ('p', "'p", "p'", '_p', "''p'", "-p'"):
+                        continue
+                    text = '#program %s.\n%s%s\n' % (part, pre, tmpl.format(X=form[0]))
+                    line = 'ctx %s %s %d %d %d %d' % (' '.join(str(b) for b in shape), place, form[1], form[2], form[3], form[4])
+                    rows.append({'part': part, 'position': pname + ('' if pi == 0 else '@after:' + pre.strip()), 'form': form[0], 'text': text, 'line': line, 'f': form})
     return rows
 
 
